@@ -11,7 +11,8 @@ from vlib.build import build
 from vlib.pkgread import pkg_nets, check_package
 
 SIGN = ["s", "k", "m0:kk", "m0:l0:m", "lx:m", "m0:g", "m1:kk", "x0:m0:kk"]      # candidate designer signal names
-INSTN = ["lx", "m0:l0", "m0:l0:r0", "m1:rm", "m0:lq", "q"]                           # candidate designer instance names
+INSTN = ["lx", "m0:l0", "m0:l0:r0", "m1:rm", "m0:lq", "q"]
+LEAFN = ["rt", "m0:rm", "rt", "m1:l2:r1", "rt", "m0:z:ra"]                         # names of a leaf placed directly in the top (by index of INSTN)                           # candidate designer instance names
 
 
 def design(w, share, ext, deep, sn, inn, imid):
@@ -38,7 +39,9 @@ def design(w, share, ext, deep, sn, inn, imid):
         Inst("m0", mid, {"a": Sig(SIGN[sn]), "g": Sig("t"), "m": Sig("g2"), "p": Sig("t")}),
         Inst("m1", mid, {"a": Sig("pa"), "g": Sig("g2"), "m": Sig("t"), "p": Sig("g2")}),
         Inst(INSTN[inn], leaf2, {"a": Sig(SIGN[sn]), "g": Sig("g2")}),
-        Inst("z0", cell0, {}), Inst("z1", cell0, {})])
+        Inst("z0", cell0, {}), Inst("z1", cell0, {}),
+        # a LEAF of the top itself, declared after the hierarchy, possibly named like the ':'-joined path of a nested leaf
+        Inst(LEAFN[inn], Prim("R", dict(r=7)), {"p": Sig("t"), "n": Sig("g2")})])
     if deep:
         top.name = "Upper"
         top = Mod("Top", ports=[("t", 1), ("u", 1), ("pb", w)], insts=[
